@@ -775,6 +775,7 @@ PROPS = {
         switches=[("Bug_NoBlockCrc", "MC_RainCorrupt.tla", "MC_RainCorrupt.cfg", "NoInvention"),
                   ("Bug_ManifestSkipsDamaged", "MC_RainCorrupt.tla", "MC_RainCorrupt.cfg", None),
                   ("Bug_SpliceFragments", "MC_RainCorrupt.tla", "MC_RainCorrupt.cfg", None),
+                  ("Bug_OrphanNotNoticed", "MC_RainCorrupt.tla", "MC_RainCorrupt.cfg", "NoInvention"),
                   ("ExcludeTailHeader=FALSE", "MC_RainCorrupt.tla", "MC_RainCorrupt.cfg", None)],
         work=[dict(driver="corrupt", args=["--nops", "25", "--threads", "2", "--max-probes", "1500"],
                    quick=6, thorough=60)]),
